@@ -85,6 +85,7 @@ type Gen struct {
 	entry       *State
 	stack       []*ssa.Function
 	needDivFns  bool
+	globConst   map[*ssa.Global]string
 	needWraps   bool
 	heapConsts  []string
 	constKey    map[string]string
